@@ -9,6 +9,7 @@ import (
 
 	"github.com/bilibili/smgo/sm2/internal"
 	"verif/refs/sm2ref"
+	"verif/vx"
 )
 
 func encRef(r sm2ref.Point) []byte {
@@ -24,9 +25,37 @@ func encRef(r sm2ref.Point) []byte {
 func implPoint(r sm2ref.Point) *internal.SM2Point {
 	p, err := internal.NewSM2Point().SetBytes(encRef(r))
 	if err != nil || p == nil {
-		panic(fmt.Sprintf("harness: SetBytes rejects a valid encoding: %v", err))
+		// a decoder that refuses a valid encoding is a finding of its own (reported by implSeamReport at the end of the
+		// driver); the operand is built from the Montgomery images of the coordinates instead, so that the driver goes on
+		// and ends in VIOLATION lines rather than in "harness could not run"
+		if len(implRejected) < 16 {
+			implRejected = append(implRejected, fmt.Sprintf("%x: %v", encRef(r), err))
+		}
+		if r.Inf {
+			return internal.NewSM2Point()
+		}
+		mont := func(c *big.Int) *[4]uint64 {
+			m := new(big.Int).Lsh(c, 256)
+			m.Mod(m, sm2ref.P)
+			var raw [4]uint64
+			mask := new(big.Int).SetUint64(^uint64(0))
+			for i := 0; i < 4; i++ {
+				raw[i] = new(big.Int).And(new(big.Int).Rsh(m, uint(64*i)), mask).Uint64()
+			}
+			return &raw
+		}
+		return internal.NewFromXY(mont(r.X), mont(r.Y))
 	}
 	return p
+}
+
+var implRejected []string
+
+// implSeamReport is deferred by the drivers after `defer r.End()`.
+func implSeamReport(r *vx.R) {
+	for _, s := range implRejected {
+		r.Violation("seam:point-SetBytes-rejects-valid", "SM2Point.SetBytes refused the canonical encoding of a curve point while an operand was built: "+s, nil)
+	}
 }
 
 // refPoint reads an implementation point back through the public (constant-time) encoder.
